@@ -59,3 +59,223 @@ Example C09_example :
   r_status (main_run fine c [f1] (fun l => l) render [] s) = 0%Z /\
   length (r_calls (main_run fine c [f1] (fun l => l) render [] s)) = 1%nat.
 Proof. vm_compute. repeat split. Qed.
+
+(* ====================================================================================================== *)
+(* The front end computed from the template TEXTS (Pipe/FrontCompile.v).  [compile R text] is              *)
+(* TemplateCompiler.compile: the parser of C10 ([parse]), then the binder of C15 ([Alias.bind_list]) over  *)
+(* the registry of C12 ([Registry.get]) with the factory call and context rule of C13                      *)
+(* ([Signature.bind_call]); [R : tagreg] carries the name table, what each factory is (class tag with the  *)
+(* signature and require_context of its --help line, or alias with its pattern text) and the nesting depth *)
+(* allowed for aliases.  [front_of R name filter sort fe se] is the record [front] with                     *)
+(* f_name_ok / f_filter / f_sort COMPUTED by [compile]; the evaluators fe, se stay arbitrary.               *)
+(* ====================================================================================================== *)
+From Tempren Require Import Tpl.Ast Tpl.Lexer Tpl.Visitor Pipe.FrontCompile Pipe.FrontCompileExamples.
+From Tempren Require Tpl.Registry Tpl.Signature.
+
+(* A template text the user typed does not compile (the name template, or the filter / sort template if one
+   is given): no system call, no intermediate state, the filesystem and the report untouched; status 3
+   (2 only when --sort is combined with directory mode, which cli.main refuses before compiling it). *)
+Theorem C09_untouched_on_bad_template_text :
+  forall R name_tpl filter_tpl sort_tpl fe se c gathered order render cwd s,
+  (is_error (compile R name_tpl) \/
+   (exists t, filter_tpl = Some t /\ is_error (compile R t)) \/
+   (exists t, sort_tpl = Some t /\ is_error (compile R t))) ->
+  let r := main_run (front_of R name_tpl filter_tpl sort_tpl fe se) c gathered order render cwd s in
+  r_calls r = [] /\ r_states r = [] /\ r_final r = s /\ r_report r = [] /\ (r_status r = 3%Z \/ r_status r = 2%Z).
+Proof. exact untouched_on_bad_template_text. Qed.
+Print Assumptions C09_untouched_on_bad_template_text.
+
+(* the status is exactly 3 for the name and the filter template, and for the sort template outside directory mode *)
+Theorem C09_bad_template_text_status_3 :
+  forall R name_tpl filter_tpl sort_tpl fe se c gathered order render cwd s,
+  (is_error (compile R name_tpl) \/
+   (exists t, filter_tpl = Some t /\ is_error (compile R t)) \/
+   (exists t, sort_tpl = Some t /\ is_error (compile R t) /\ c_mode c <> MDirectory)) ->
+  let r := main_run (front_of R name_tpl filter_tpl sort_tpl fe se) c gathered order render cwd s in
+  r_calls r = [] /\ r_states r = [] /\ r_final r = s /\ r_report r = [] /\ r_status r = 3%Z.
+Proof. exact bad_template_text_status_3. Qed.
+Print Assumptions C09_bad_template_text_status_3.
+
+(* and conversely the front end finds no template mistake exactly when every given text compiles *)
+Theorem C09_no_mistake_iff_all_compile : forall R name_tpl filter_tpl sort_tpl fe se,
+  template_mistake (front_of R name_tpl filter_tpl sort_tpl fe se) = false <->
+  compiles R name_tpl = true /\
+  (forall t, filter_tpl = Some t -> compiles R t = true) /\
+  (forall t, sort_tpl = Some t -> compiles R t = true).
+Proof. exact no_mistake_iff. Qed.
+Print Assumptions C09_no_mistake_iff_all_compile.
+
+(* When does a text fail to compile: it does not parse, or some tag of the parsed tree does not bind.
+   [all_tags_bind R p = pat_binds R (text_binds R (tr_depth R)) p] is the recursion
+       pat_binds (e1 ... ek)              = ast_binds e1 && ... && ast_binds ek
+       ast_binds (raw text)               = true
+       ast_binds (%c.n(ar, kw) [{x}])     = tag_ok c n ar kw has_ctx && (if has_ctx then pat_binds x else true)
+       tag_ok c n ar kw h                 = Registry.get names (c, n) is ROk f (unique factory) and
+            f is a class tag (s, r, accepts): Signature.bind_call s r (accepts args) |ar| (keys kw) h = Accept
+                                              (arguments bind, configure accepts, context rule met)
+            f is an alias with text t:        t compiles one level further down, no argument, no context
+   (a piped tag  x|%T()  is the tree %T(){x}: the parser has already put x into the context). *)
+Theorem C09_compile_error_iff : forall R text,
+  is_error (compile R text) <->
+  (exists e, parse text = Err e) \/ (exists p, parse text = Ok p /\ all_tags_bind R p = false).
+Proof. exact compile_error_iff. Qed.
+Print Assumptions C09_compile_error_iff.
+
+Theorem C09_compiles_spec : forall R text,
+  compiles R text = match parse text with Ok p => all_tags_bind R p | Err _ => false end.
+Proof. exact compiles_spec. Qed.
+Print Assumptions C09_compiles_spec.
+
+(* the same predicate read flat: every tag occurrence the binder can reach passes its own test *)
+Theorem C09_all_tags_bind_flat : forall R p,
+  all_tags_bind R p = forallb (occ_ok R (text_binds R (tr_depth R))) (tag_occs p).
+Proof. exact all_tags_bind_flat. Qed.
+Print Assumptions C09_all_tags_bind_flat.
+
+(* every rejection is a TemplateError class: cli.main exits with 3 *)
+Theorem C09_compile_error_status : forall R text e,
+  compile R text = inr e ->
+  Signature.is_template_error (exc_of_error e) = true /\ Signature.cli_status (exc_of_error e) = 3%Z.
+Proof. exact compile_error_status. Qed.
+Print Assumptions C09_compile_error_status.
+
+(* A tag name that does not resolve to exactly one factory (unknown name, unknown category, ambiguous bare
+   name), written ANYWHERE in the name template - top level, inside a context at any depth, in a pipe list:
+   [leaves_pat p] are the leaves of the tree the parser returns, which by C10_nothing_dropped are the leaves
+   of the parse tree of the text. *)
+Theorem C09_untouched_on_unresolved_tag_name :
+  forall R name_tpl filter_tpl sort_tpl fe se c gathered order render cwd s p cat name,
+  parse name_tpl = Ok p -> In (LName cat name) (leaves_pat p) ->
+  (forall f, Registry.get (tr_names R) (cat, name) <> Registry.ROk f) ->
+  let r := main_run (front_of R name_tpl filter_tpl sort_tpl fe se) c gathered order render cwd s in
+  r_calls r = [] /\ r_states r = [] /\ r_final r = s /\ r_report r = [] /\ r_status r = 3%Z.
+Proof. exact untouched_on_unresolved_written_name. Qed.
+Print Assumptions C09_untouched_on_unresolved_tag_name.
+
+(* for any of the three texts (combine with C09_bad_template_text_status_3 for the filter / sort template) *)
+Theorem C09_unresolved_tag_name_fails : forall R text p cat name,
+  parse text = Ok p -> In (LName cat name) (leaves_pat p) ->
+  (forall f, Registry.get (tr_names R) (cat, name) <> Registry.ROk f) ->
+  is_error (compile R text).
+Proof. exact unresolved_written_name_fails. Qed.
+Print Assumptions C09_unresolved_tag_name_fails.
+
+(* "does not resolve" read off the registrations the registry value was built from: no row carries the tag
+   name written (tag names compare verbatim), in the category written if one is written (category names
+   compare after lower-casing) *)
+Theorem C09_untouched_on_unregistered_tag_name :
+  forall depth rows R name_tpl filter_tpl sort_tpl fe se c gathered order render cwd s p cat name,
+  tagreg_of_rows depth rows = Some R ->
+  parse name_tpl = Ok p -> In (LName cat name) (leaves_pat p) ->
+  (forall c2 f, match cat with Some c' => Registry.lower c2 = Registry.lower c' | None => True end ->
+                ~ In (c2, name, f) (map fst rows)) ->
+  let r := main_run (front_of R name_tpl filter_tpl sort_tpl fe se) c gathered order render cwd s in
+  r_calls r = [] /\ r_states r = [] /\ r_final r = s /\ r_report r = [] /\ r_status r = 3%Z.
+Proof. exact untouched_on_unregistered_name. Qed.
+Print Assumptions C09_untouched_on_unregistered_tag_name.
+
+(* the same for a tag occurrence given as a node of the tree *)
+Theorem C09_untouched_on_unresolved_tag_occurrence :
+  forall R name_tpl filter_tpl sort_tpl fe se c gathered order render cwd s p cat name ar kw h x,
+  parse name_tpl = Ok p -> In (Tag cat name ar kw h x) (tag_occs p) ->
+  (forall f, Registry.get (tr_names R) (cat, name) <> Registry.ROk f) ->
+  let r := main_run (front_of R name_tpl filter_tpl sort_tpl fe se) c gathered order render cwd s in
+  r_calls r = [] /\ r_states r = [] /\ r_final r = s /\ r_report r = [] /\ r_status r = 3%Z.
+Proof. exact untouched_on_unresolved_tag. Qed.
+Print Assumptions C09_untouched_on_unresolved_tag_occurrence.
+
+(* any failing occurrence (bad arguments, missing / forbidden context, alias misuse ...) fails the text *)
+Theorem C09_bad_occurrence_fails : forall R text p e,
+  parse text = Ok p -> In e (tag_occs p) -> occ_ok R (text_binds R (tr_depth R)) e = false ->
+  is_error (compile R text).
+Proof. exact bad_occurrence_fails. Qed.
+Print Assumptions C09_bad_occurrence_fails.
+
+(* Unbalanced braces.  [braces_balanced text]: the lexer accepts the text and emits as many '{' tokens as '}'
+   tokens (braces escaped by a backslash in raw text, or inside a quoted argument, are not brace tokens). *)
+Theorem C09_unbalanced_braces_rejected : forall text,
+  braces_balanced text = false -> exists e, parse text = Err e.
+Proof. exact unbalanced_braces_rejected. Qed.
+Print Assumptions C09_unbalanced_braces_rejected.
+
+Theorem C09_untouched_on_unbalanced_braces :
+  forall R name_tpl filter_tpl sort_tpl fe se c gathered order render cwd s,
+  braces_balanced name_tpl = false ->
+  let r := main_run (front_of R name_tpl filter_tpl sort_tpl fe se) c gathered order render cwd s in
+  r_calls r = [] /\ r_states r = [] /\ r_final r = s /\ r_report r = [] /\ r_status r = 3%Z.
+Proof. exact untouched_on_unbalanced_braces. Qed.
+Print Assumptions C09_untouched_on_unbalanced_braces.
+
+(* Stronger: [braces_nested text] - reading the brace tokens left to right, no '}' arrives at depth 0 and the
+   depth is 0 at the end. *)
+Theorem C09_ill_nested_braces_rejected : forall text,
+  braces_nested text = false -> exists e, parse text = Err e.
+Proof. exact ill_nested_braces_rejected. Qed.
+Print Assumptions C09_ill_nested_braces_rejected.
+
+Theorem C09_untouched_on_ill_nested_braces :
+  forall R name_tpl filter_tpl sort_tpl fe se c gathered order render cwd s,
+  braces_nested name_tpl = false ->
+  let r := main_run (front_of R name_tpl filter_tpl sort_tpl fe se) c gathered order render cwd s in
+  r_calls r = [] /\ r_states r = [] /\ r_final r = s /\ r_report r = [] /\ r_status r = 3%Z.
+Proof. exact untouched_on_ill_nested_braces. Qed.
+Print Assumptions C09_untouched_on_ill_nested_braces.
+
+(* ---------- non-vacuity: the registry of Pipe/FrontCompileExamples.v ------------------------------------
+   Core.Name %Name() (a context is refused), Text.Upper %Upper{...} (a context is required),
+   Alias.Shout = %Upper{%Name()}, Alias.Loop = %Loop(); one file in/a, every name rendered to "x". *)
+Example C09_example_registry :
+  length ex_rows = 4%nat /\ tagreg_of_rows 20 ex_rows <> None /\
+  Registry.get (tr_names ex_tagreg) (None, [78; 97; 109; 101]) = Registry.ROk 0 /\
+  kind_of ex_tagreg 3 = Some (KAlias t_loop).
+Proof. vm_compute. repeat split. discriminate. Qed.
+
+(* %Nme()  %Upper{%Nme()}  %Name()|%Uper()  %Upper()  %Name(){x}  %Name(  %Upper{%Name()  %Name()}  %Name(x=1)
+   %Shout(1)  %Loop(): status 3, no call, filesystem as before *)
+Example C09_example_bad_texts :
+  forall t, In t [t_unknown; t_unknown_nested; t_unknown_piped; t_ctx_missing; t_ctx_forbidden; t_open_paren;
+                  t_open_brace; t_close_brace; t_bad_arg; t_alias_arg; t_loop] ->
+  compiles ex_tagreg t = false /\
+  r_status (ex_run MName t None None) = 3%Z /\ r_calls (ex_run MName t None None) = [] /\
+  r_final (ex_run MName t None None) = ex_fs /\
+  r_status (ex_run MName t_good (Some t) None) = 3%Z /\ r_calls (ex_run MName t_good (Some t) None) = [] /\
+  r_status (ex_run MName t_good None (Some t)) = 3%Z /\ r_calls (ex_run MName t_good None (Some t)) = [] /\
+  r_status (ex_run MDirectory t_good None (Some t)) = 2%Z /\ r_calls (ex_run MDirectory t_good None (Some t)) = [].
+Proof.
+  intros t H. cbn [In] in H.
+  repeat (destruct H as [<-|H]; [vm_compute; repeat split; reflexivity|]). destruct H.
+Qed.
+
+(* the class of each error *)
+Example C09_example_error_classes :
+  map (fun t => match compile ex_tagreg t with inl _ => None | inr e => Some e end)
+      [t_unknown; t_unknown_nested; t_unknown_piped; t_ctx_missing; t_ctx_forbidden; t_open_paren;
+       t_open_brace; t_close_brace; t_bad_arg; t_alias_arg; t_loop] =
+  [Some (TEBind Signature.ExUnknownName); Some (TEBind Signature.ExUnknownName); Some (TEBind Signature.ExUnknownName);
+   Some (TEBind Signature.ExContextMissing); Some (TEBind Signature.ExContextForbidden); Some (TESyntax ESyntax);
+   Some (TESyntax ESyntax); Some (TESyntax ESyntax); Some (TEBind Signature.ExTagConfiguration);
+   Some (TEBind Signature.ExTagConfiguration); Some (TEBind Signature.ExTemplateSyntax)].
+Proof. vm_compute. reflexivity. Qed.
+
+(* %Upper{%Name()}  %Name()|%Upper()  a%Shout()  compile, and the run goes on to rename *)
+Example C09_example_good_texts :
+  forall t, In t [t_good; t_piped; t_alias] ->
+  compiles ex_tagreg t = true /\
+  r_status (ex_run MName t None None) = 0%Z /\ length (r_calls (ex_run MName t None None)) = 1%nat /\
+  r_status (ex_run MName t (Some t) (Some t)) = 0%Z.
+Proof.
+  intros t H. cbn [In] in H.
+  repeat (destruct H as [<-|H]; [vm_compute; repeat split; reflexivity|]). destruct H.
+Qed.
+
+(* the hypotheses of the corollaries are met by these texts *)
+Example C09_example_hypotheses :
+  (exists p, parse t_unknown_piped = Ok p /\ In (LName None [85; 112; 101; 114]) (leaves_pat p) /\
+             Registry.get (tr_names ex_tagreg) (None, [85; 112; 101; 114]) = Registry.RUnknownName) /\
+  braces_balanced t_open_brace = false /\ braces_balanced t_close_brace = false /\
+  braces_balanced t_good = true /\ braces_nested t_good = true /\
+  (* }%Upper{ : as many '{' as '}', but ill nested *)
+  braces_balanced [125; 37; 85; 112; 112; 101; 114; 123] = true /\
+  braces_nested [125; 37; 85; 112; 112; 101; 114; 123] = false /\
+  compiles ex_tagreg [125; 37; 85; 112; 112; 101; 114; 123] = false.
+Proof. vm_compute. split; [eexists; split; [reflexivity|split; [|reflexivity]]|repeat split]. left. reflexivity. Qed.
